@@ -166,9 +166,7 @@ func mixHash(a, b uint64) {
 //go:norace
 func yieldHook(site int) {
 	if site >= 0 {
-		sTicks++            // progress, as the watchdog understands it
-		hook.SimNow += 1000 // simulated time creeps by a microsecond per statement, whatever the granularity of the run:
-		// a loop that waits for the clock must see it move
+		sTicks++ // progress, as the watchdog understands it
 	}
 	cur := sCur // read once: a foreign goroutine may be preempted between the test and the use
 	if sActive && (cur < 0 || cur >= maxTasks || getg() != sTaskG[cur]) {
@@ -284,15 +282,13 @@ func blockedYield(me int, mustSwitch bool) {
 	}
 }
 
-// The simulated clock (hook.SimNow) creeps by a microsecond per yield and, in runs that ask for it, jumps forward
+// The simulated clock is the real clock plus hook.ClockOffset; in runs that ask for it the offset jumps forward
 // by anything between a millisecond and three days (code that walks a window second by second is legitimate: a month would cost it millions of iterations) at points chosen by a generator of its own (a pure function of the
 // run seed and the number of yields so far).  It never goes back: the tree's time.Since would not see that either.
 var clockJumps = [...]int64{1e6, 1e6, 50e6, 50e6, 1e9, 1e9, 10e9, 61e9, 61e9, 600e9, 3600e9, 25 * 3600e9, 3 * 24 * 3600e9}
 
-const (
-	simEpoch   = int64(1767225600e9)            // 2026-01-01T00:00:00Z
-	simHorizon = int64(150 * 365 * 24 * 3600e9) // 150 years
-)
+// simHorizon: no jumps once the simulated clock is a century ahead of the real one (int64 nanoseconds end in 2262).
+const simHorizon = int64(100 * 365 * 24 * 3600e9)
 
 // progressTicks is read by the watchdog goroutine (plain variable, invisible to the race detector like the rest of
 // the scheduler state).
@@ -323,11 +319,11 @@ func sleepHook(d time.Duration) bool {
 	} else if cur < 0 || cur >= maxTasks || me != sTaskG[cur] {
 		return false
 	}
-	if d > 0 && hook.SimNow < simEpoch+simHorizon {
+	if d > 0 && hook.ClockOffset < simHorizon {
 		if d > time.Duration(clockJumps[len(clockJumps)-1]) {
 			d = time.Duration(clockJumps[len(clockJumps)-1])
 		}
-		hook.SimNow += int64(d)
+		hook.ClockOffset += int64(d)
 	}
 	if sActive {
 		yieldHook(-3)
@@ -363,8 +359,8 @@ func clockTick() {
 		if sClkLeft == 0 {
 			// at most eight jumps per run: code whose work is proportional to the time that has passed (a window
 			// advanced second by second) must be able to catch up with the clock
-			if hook.SimNow < simEpoch+simHorizon && sClkJumps < 8 { // int64 nanoseconds end in 2262: no jumps beyond 2176, the clock then only creeps
-				hook.SimNow += nextClockJump()
+			if hook.ClockOffset < simHorizon && sClkJumps < 8 {
+				hook.ClockOffset += nextClockJump()
 				sClkJumps++
 			}
 			sClkLeft = 1 + clkRnd()%(2*sClkRate)
@@ -787,7 +783,7 @@ func schedReset(n int, c *SchedConfig) {
 	sGCRate = c.GCRate
 	sGCFired = 0
 	sClkRate, sClkRng, sClkJumps = uint64(c.ClockRate), c.Seed^0xC10C, 0
-	sClkStart = hook.SimNow
+	sClkStart = hook.ClockOffset
 	if sClkRate > 0 {
 		sClkLeft = 1 + clkRnd()%(2*sClkRate)
 	}
